@@ -36,9 +36,10 @@ var Kinds = []string{KindError, KindCrashBefore, KindCrashAfter, KindTorn}
 
 // Fault is one planned fault.
 type Fault struct {
-	K    int    `json:"k"`              // index of the storage/back-end call of the write operation (taken modulo the number of calls N it makes)
-	Kind string `json:"kind"`           // error | crash-before | crash-after | torn
-	Torn int    `json:"torn,omitempty"` // torn: per cent of the data that reaches the storage (0..99; at least one byte is always cut)
+	K      int    `json:"k"`                // index of the storage/back-end call of the write operation: taken modulo the number of calls N it makes
+	Window bool   `json:"window,omitempty"` // K counts from the first storage-changing call of W, modulo the calls up to its last one (sampling inside the half-done window)
+	Kind   string `json:"kind"`             // error | crash-before | crash-after | torn
+	Torn   int    `json:"torn,omitempty"`   // torn: per cent of the data that reaches the storage (0..99; at least one byte is always cut)
 }
 
 type crashSignal struct{}
